@@ -32,6 +32,7 @@ import (
 	"github.com/codenotary/immudb/embedded/appendable/fileutils"
 	"github.com/codenotary/immudb/embedded/appendable/singleapp"
 	"github.com/codenotary/immudb/embedded/cache"
+	"github.com/codenotary/immudb/embedded/verifhook"
 
 	"golang.org/x/sync/singleflight"
 )
@@ -536,6 +537,7 @@ func (mf *MultiFileAppendable) DiscardUpto(off int64) error {
 		if err != nil && !os.IsNotExist(err) {
 			return err
 		}
+		verifhook.FSRemove(appFile)
 
 		dirSyncNeeded = true
 	}
